@@ -20,9 +20,34 @@ PROP = "C17"
 NOORC = orc("out", costs=False, multiset=False)
 
 
+# programs in which SETS WITH SEVERAL ELEMENTS flow through every pass (several shared variables, several groups,
+# several predicates to rename ...): an unsorted set reaching the output shows as an order dependence here
+ORDER_CORPUS = [
+    ("proj2", "p(A,B,D) :- q(A,B,C), r(A,B,D), t(E), not s(C,E).\n#show p/3."),
+    ("proj3", "p(A,B,C,D) :- q(A,B,C,F), r(A,B,C,D), t(E), not s(F,E).\nk(A,B,D) :- q(A,B,C,F), r(A,B,C,D), t(E), s(F,E)."),
+    ("dupl3", "h1(X,Y,Z) :- p(X,Y), q(Y,Z), r(Z,X), e(X).\nh2(X,Y,Z) :- p(X,Y), q(Y,Z), r(Z,X), not e(Y).\n"
+              "h3(N) :- N = #count { X,Y,Z : p(X,Y), q(Y,Z), r(Z,X) }."),
+    ("sym_groups", "{ sl(J,M,T) } :- d(J,M,T).\n:- sl(J1,M,T1), sl(J2,M,T2), J1 != J2, T1 != T2.\n"
+                   ":- sl(J,M1,T), sl(J,M2,T), M1 != M2.\nbad(M) :- sl(A,M,T), sl(B,M,T), sl(C,M,T), A != B, B != C, A != C."),
+    ("unused_many", "b(X,Y,Z) :- db(X,Y,Z).\nc(X,Y,Z) :- dc(X,Y,Z).\nd(X,Y,Z) :- dd(X,Y,Z).\n"
+                    "r(X) :- b(X,_,_), c(_,X,_), d(_,_,X).\n#show r/1."),
+    ("cleanup_many", "b(X,Y,Z) :- p(X), q(Y), r(Z), s(X,Y), t(Y,Z).\na(X,Y,Z) :- b(X,Y,Z), p(X), q(Y), r(Z), s(X,Y), t(Y,Z).\n"
+                     "c :- a(X,Y,Z), b(X,Y,Z), t(Y,Z), s(X,Y)."),
+    ("minmax_groups", "{ q(A,B,C,V) } :- dq(A,B,C,V).\nr(A,B,C,X) :- g(A,B,C), X = #max { V : q(A,B,C,V) }.\n"
+                      "s(C,B,A,X) :- g(A,B,C), X = #min { V : q(A,B,C,V) }.\n#minimize { X@1,A,B,C : r(A,B,C,X) }."),
+    ("sum_two_amo", "{ sh(D,L) : ps(D,L) } 1 :- day(D).\n{ tk(W,C) : pt(W,C) } 1 :- wk(W).\n"
+                    "a(X) :- X = #sum { L,D : sh(D,L) ; C,W,t : tk(W,C) }.\n:~ sh(D,L). [L@1,D]\n:~ tk(W,C). [C@2,W]"),
+    ("math_many", "{ s(Z) : ds(Z) }. { t(Z) : ds(Z) }.\na(X,Y) :- p(X), q(Y), N = #sum { Z : s(Z) }, M = #count { Z : t(Z) }, "
+                  "K = #sum { Z,b : t(Z) }, N + M + K = X + Y, X < Y."),
+    ("inline_two", "{ pe(V,Y) } :- dpe(V,Y).\nh(V,W,S) :- g(V), g(W), S = #sum { Y : pe(V,Y) ; Y,b : pe(W,Y) }.\n"
+                   "foo(X) :- X = #sum { S,V,W : h(V,W,S) }."),
+    ("auto_many", "z(X) :- a(X), b(X), c(X), d(X), e(X).\ny(X) :- f(X), g(X), not h(X).\n#show z/1. #show y/1. #show w(X) : a(X), f(X)."),
+]
+
+
 def corpus(tier: str) -> list[tuple[str, str]]:
-    progs = [(name, prog) for name, prog, *_ in compose.CORPUS]
-    progs += [(f"unit{i}", CONTEXT + "\n" + u) for i, u in enumerate(UNITS) if tier != "quick" or i % 4 == 0]
+    progs = [(name, prog) for name, prog, *_ in compose.CORPUS] + ORDER_CORPUS
+    progs += [(f"unit{i}", CONTEXT + "\n" + u) for i, u in enumerate(UNITS) if tier != "quick" or i % 8 == 0]
     if tier != "quick":
         progs += [(f"zoo{i}", CONTEXT + "\n" + z) for i, z in enumerate(ZOO) if "#script" not in z]
     return progs
@@ -252,7 +277,7 @@ def main(tier: str, seed: int) -> int:
         return [config(compose.OWNER[fam], c0["inp"], [], NOORC), config(DEFAULT, c0["inp"], [], NOORC)]
 
     keep = slice_keep(tier)
-    imm_fams = ["C08", "C12", "C13", "C15"] if quick else ["C08", "C09", "C10", "C11", "C12", "C13", "C14", "C15", "C16"]
+    imm_fams = ["C12", "C13", "C15"] if quick else ["C08", "C09", "C10", "C11", "C12", "C13", "C14", "C15", "C16"]
     imm_jobs += list(compose.remap(compose.family_jobs(imm_fams, tier),
                                    "C17", mk, checks=("immut",),
                                    keep=lambda j: keep(j) or j["family"].split("/")[0] in ("C12", "C13")))
